@@ -23,6 +23,7 @@ import (
 type TB interface {
 	Fatalf(format string, args ...any)
 	Logf(format string, args ...any)
+	Skipf(format string, args ...any)
 }
 
 type Cfg struct {
@@ -60,19 +61,21 @@ type snapRec struct {
 	content []string // item bytes in comparator order
 	refs    int      // references held by the harness
 	// classification
-	laterDeleted  bool // a key it contains was deleted in a later epoch
-	laterReinsert bool // ... and re-inserted later
-	otherClosed   bool // another snapshot was retired after it was created
+	laterDeleted   bool // a key it contains was deleted in a later epoch
+	laterReinsert  bool // ... and re-inserted later
+	otherClosed    bool // another snapshot was retired after it was created
 	collectedSince bool // a collection pass removed >=1 version since it was created
 }
 
 type World struct {
-	t     TB
-	cfg   Cfg
-	db    *nitro.Nitro
-	ws    []*nitro.Writer
-	arena *guard.Arena
-	st    *ev.Stats
+	t           TB
+	cfg         Cfg
+	db          *nitro.Nitro
+	ws          []*nitro.Writer
+	arena       *guard.Arena
+	ownArena    bool
+	closedClean bool
+	st          *ev.Stats
 
 	currSn  uint32
 	live    map[string]*version
@@ -87,8 +90,14 @@ type World struct {
 	flags   map[string]bool
 	baseMem int64
 	closed  bool
-	failed  *bool // shared "a failure was seen in this process" flag
-	iters   []*nitro.Iterator
+	// Strict makes collection progress part of the judged property (C06/C07); otherwise a
+	// collection that does not settle makes the case inconclusive (skipped), not failed.
+	Strict     bool
+	inCallback bool  // running inside a callback of the code under test: failures are deferred
+	quiet      bool  // suppress per-op log lines (bulk actions log a summary)
+	failed     *bool // shared "a failure was seen in this process" flag
+	iters      []*nitro.Iterator
+	pinned     map[int]int // references reserved for concurrent readers (not closable by actions)
 	// known findings (signatures) for which generators exclude the triggering shape
 	known map[string]bool
 }
@@ -120,6 +129,7 @@ func NewWorld(t TB, cfg Cfg, st *ev.Stats) *World {
 		flags: map[string]bool{}, firstSn: 1, known: Known()}
 	if cfg.MM {
 		w.arena = guard.Get(cfg.GuardMode)
+		w.ownArena = true
 	}
 	w.db = nitro.NewWithConfig(newConfig(cfg, w.arena))
 	for i := 0; i < cfg.NWriters; i++ {
@@ -131,6 +141,9 @@ func NewWorld(t TB, cfg Cfg, st *ev.Stats) *World {
 }
 
 func (w *World) logf(format string, args ...any) {
+	if w.quiet {
+		return
+	}
 	w.log = append(w.log, fmt.Sprintf(format, args...))
 }
 
@@ -143,6 +156,9 @@ func (w *World) flag(f string) { w.flags[f] = true }
 func (w *World) Failf(sig string, format string, args ...any) {
 	msg := fmt.Sprintf(format, args...)
 	processFailed = true
+	if w.inCallback {
+		panic(&deferredFailure{sig: sig, msg: msg})
+	}
 	if w.st != nil {
 		w.st.Fail(sig, msg+"\nHISTORY: "+w.Desc())
 	}
@@ -345,6 +361,17 @@ func (w *World) NewSnapshot() *snapRec {
 	return rec
 }
 
+// ClosableSnaps returns indexes of snapshots with a reference that actions may close.
+func (w *World) ClosableSnaps() []int {
+	var out []int
+	for i, s := range w.snaps {
+		if s.refs-w.pinned[i] > 0 {
+			out = append(out, i)
+		}
+	}
+	return out
+}
+
 // OpenSnaps returns indexes of snapshots the harness holds a reference on.
 func (w *World) OpenSnaps() []int {
 	var out []int
@@ -399,6 +426,7 @@ func (w *World) Close(i int) {
 			}
 		}
 		w.noteFrontierAdvance(before)
+		w.settle()
 	}
 }
 
@@ -522,34 +550,27 @@ func waitLimit() time.Duration {
 	return 20 * time.Second
 }
 
-// GC forces a collection pass and checks the frontier synchronously.
-func (w *World) GC() {
-	w.op()
-	w.db.GC()
-	w.logf("gc()")
-	if got, want := w.db.GetLastGCSn(), w.gcFrontier(); got != want {
-		w.Failf("gc-frontier", "after GC() GetLastGCSn()=%d, but snapshots 1..%d are all closed (model frontier)", got, want)
-	}
-}
-
-// AwaitCollection waits until the statistics match the model's physical count.
-// Returns whether collection was already complete at the first look.
-func (w *World) AwaitCollection() bool {
-	w.GC()
+// settle waits until the collection workers have caught up with the model, so that
+// the physical state of the structure is a function of the history (determinism).
+// Returns whether the state was already settled at the first look.
+func (w *World) settle() bool {
 	want := w.expectedPhysical()
 	deadline := time.Now().Add(waitLimit())
 	first := true
-	immediate := false
 	for {
 		d := w.Stats()
 		if d.NodeCount == want && d.SoftDeletes == 0 {
-			if first {
-				immediate = true
-			}
-			break
+			return first
 		}
 		first = false
 		if time.Now().After(deadline) {
+			if !w.Strict {
+				processFailed = true // shorten later waits
+				if w.inCallback {
+					panic(&deferredFailure{sig: "__skip__", msg: "collection did not settle"})
+				}
+				w.t.Skipf("collection did not settle (node_count=%d want %d); not judged by this property", d.NodeCount, want)
+			}
 			sig := "gc-incomplete"
 			if d.NodeCount < want {
 				sig = "gc-premature"
@@ -557,10 +578,25 @@ func (w *World) AwaitCollection() bool {
 			w.Failf(sig, "collection not quiescent at the model's state: node_count=%d soft_deletes=%d, model expects %d physical versions (live %d, frontier %d)",
 				d.NodeCount, d.SoftDeletes, want, len(w.live), w.gcFrontier())
 		}
-		time.Sleep(50 * time.Microsecond)
+		time.Sleep(20 * time.Microsecond)
 	}
-	w.logf("await()")
-	return immediate
+}
+
+// GC forces a collection pass; in strict worlds the frontier is checked synchronously.
+func (w *World) GC() {
+	w.op()
+	w.db.GC()
+	w.logf("gc()")
+	if got, want := w.db.GetLastGCSn(), w.gcFrontier(); got != want && w.Strict {
+		w.Failf("gc-frontier", "after GC() GetLastGCSn()=%d, but snapshots 1..%d are all closed (model frontier)", got, want)
+	}
+	w.settle()
+}
+
+// AwaitCollection forces a pass and waits for quiescence.
+func (w *World) AwaitCollection() bool {
+	w.GC()
+	return true
 }
 
 // ---- teardown -----------------------------------------------------------------
@@ -605,11 +641,12 @@ func (w *World) Shutdown() guard.Report {
 	if !w.closeDB() {
 		w.closed = true
 		if w.arena != nil {
-			guard.Abandon()
+			w.arena.Abandon()
 		}
 		w.Failf("close-hangs", "Nitro.Close() did not return within the watchdog")
 	}
 	w.closed = true
+	w.closedClean = true
 	w.logf("closedb()")
 	if w.arena != nil {
 		return w.arena.Report()
@@ -620,6 +657,10 @@ func (w *World) Shutdown() guard.Report {
 // Teardown is deferred by every case: best-effort orderly shutdown on any exit path.
 func (w *World) Teardown() {
 	if w.closed {
+		if w.arena != nil && w.ownArena && w.closedClean {
+			w.arena.Release()
+			w.arena = nil
+		}
 		return
 	}
 	w.closed = true
@@ -640,8 +681,12 @@ func (w *World) Teardown() {
 		}
 		return w.closeDB()
 	}()
-	if !ok && w.arena != nil {
-		guard.Abandon()
+	if w.arena != nil && w.ownArena {
+		if ok {
+			w.arena.Release()
+		} else {
+			w.arena.Abandon()
+		}
 	}
 }
 
